@@ -196,6 +196,68 @@ def run(res, tier, seed):
     for c, a, b in zip(cmds, obs, mod):
         res.compare(c, a, b, 'cmd_arr_children')
     run_constructors(res, rng, n, limit)
+    run_repr(res, rng, n, limit)
+
+
+# ---------------------------------------------------------------- cmd 28: repr as the model's token list
+LIT = ['*', 'None', '(', ')', ',', ', ', '[', ']', '{', '}', ': ', 'OrderedDict(', 'defaultdict(', ', {', '})',
+       'deque([', ', maxlen=', 'CustomTreeNode(', '], [', '])', '=', 'PyTreeSpec(', ', NoneIsLeaf', ', namespace=']
+
+
+def render(tokens):
+    """the model's tokens as text: fixed pieces of the notation, and what Python prints for the objects"""
+    out = []
+    for t in tokens:
+        if isinstance(t, int):
+            out.append(LIT[t])
+            continue
+        tag = t[0]
+        if tag == 1:
+            out.append(repr(world.real_key(t[1])))
+        elif tag == 2:
+            out.append(world.nt_class(t[1], t[2]).__name__)
+        elif tag == 3:
+            out.append(world.nt_class(t[1], t[2])._fields[t[3]])
+        elif tag == 4:
+            cls = world.STRUCTSEQ[t[1]]
+            mod = cls.__module__
+            out.append(('' if mod in ('', '__main__', 'builtins', '__builtins__') else mod + '.') + cls.__qualname__)
+        elif tag == 5:
+            out.append(optree.structseq_fields(world.STRUCTSEQ[t[1]])[t[2]])
+        elif tag == 6:
+            out.append(world.CUST[t[1]].__name__)
+        elif tag == 7:
+            out.append(repr((t[1], t[2])))
+        elif tag == 8:
+            out.append(repr(world.FACTORIES[t[1]]))
+        elif tag == 9:
+            out.append(repr(t[1]))
+        elif tag == 10:
+            out.append(repr(world.NS_NAMES[t[1]]))
+        else:
+            out.append(f'<?{t}>')
+    return ''.join(out)
+
+
+def run_repr(res, rng, n, limit):
+    cmds, obs = [], []
+    for i in range(n):
+        cfg = gen.gen_cfg(rng, limit)
+        g = gen.TreeGen(rng, world.STRUCTSEQ_ARITY, max_nodes=rng.choice([4, 12, 30]), max_depth=rng.choice([2, 4, 7]),
+                        max_arity=rng.choice([1, 2, 4]))
+        o = g.tree()
+        with World(cfg) as w:
+            tree = realize(o, random.Random(i), {})
+            r = attempt(lambda: repr(optree.tree_structure(tree, **w.kw())))
+        cmds.append((28, cfg, o))
+        obs.append((0, r[1]) if r[0] == 0 else r)
+        res.note_input((cfg, o), gen.obj_internal(o) >= 2)
+    mod = runner.run_model(cmds)
+    for c, a, b in zip(cmds, obs, mod):
+        if isinstance(b, tuple) and len(b) == 2 and b[0] == 0:
+            b = (0, render(b[1]))
+        res.compare(c, a, b, 'cmd_repr')
+        res.count('repr_%s' % ('ok' if a[0] == 0 else 'err'))
 
 
 def one_level_header(rng, g):
